@@ -46,4 +46,25 @@ def run (ss : List Slot) (es : List Ev) : List Slot := es.foldl step ss
 /-- a parent that waits for its calls is done when every call is closed -/
 def parentDone (ss : List Slot) : Bool := ss.all (fun sl => sl.closed.isSome)
 
+-- ------------------------------------------------------------------ the machine with client endings (open finding of C15)
+
+/-- the same machine with the one event the engine also accepts: a client (or the error return of another child) ends the calling
+act itself — `error` / `abort` are admissible on an open interrupt act whether or not its child still runs -/
+inductive Ev2 where
+  | base (e : Ev)
+  | client (i : Nat) (s : TaskState)
+  deriving Repr
+
+def Ev2.slot : Ev2 → Nat
+  | .base e => e.slot
+  | .client i _ => i
+
+def Slot.step2 (sl : Slot) : Ev2 → Slot
+  | .base e => sl.step e
+  | .client _ s => if sl.started && sl.closed.isNone && s.isCompleted then { sl with closed := some s } else sl
+
+def step2 (ss : List Slot) (e : Ev2) : List Slot := ss.mapIdx (fun i sl => if i = e.slot then sl.step2 e else sl)
+
+def run2 (ss : List Slot) (es : List Ev2) : List Slot := es.foldl step2 ss
+
 end Acts.Subflow
